@@ -373,6 +373,23 @@ pub fn run(ctx: &Ctx) -> Report {
         });
         rep.merge(trep);
     }
+    // every byte string of length 0, 1 and 2
+    let brep = par::run(1 + 256 + 65536, |idx, r| {
+        let bytes: Vec<u8> = if idx == 0 { vec![] } else if idx <= 256 { vec![(idx - 1) as u8] } else { vec![((idx - 257) / 256) as u8, ((idx - 257) % 256) as u8] };
+        r.states += 1;
+        r.transitions += 1;
+        match parse_bytes(&bytes, 8_000_000 + idx) {
+            Parsed::Panic(m) => r.fail(
+                "C19/no-panic/short-byte-string",
+                rn + 8_000_000 + idx,
+                json!({"kind":"bytes-hex","hex": bytes.iter().map(|b| format!("{b:02x}")).collect::<String>()}),
+                format!("panicked: {m}"),
+            ),
+            Parsed::Ok(_) => r.sig("bytes:ok"),
+            Parsed::Err(_) => r.sig("bytes:err"),
+        }
+    });
+    rep.merge(brep);
     // special byte strings
     let specials: Vec<(&str, Vec<u8>)> = vec![
         ("empty", vec![]),
@@ -404,7 +421,7 @@ pub fn run(ctx: &Ctx) -> Report {
         "round trip: 8x8x8 length choices (incl. 0, 1, negatives, 1e-7, 12345.678) x 9 offset patterns (incl. offsets of 3e-6, 5e-5, 2.5e-4 rad) x 4 sign patterns x dof -> to_yaml -> file -> \
          from_yaml_file; documented variants: number style x offset style x array length 6/5 x dof {{absent, top level, nested}} x arrays present/absent x \
          {{plain, comments, CRLF, trailing spaces}} against the harness's own expectation; no panic: all 1- and 2-edit deviations of the documented file \
-         ({} single edits), all token strings up to length {maxlen} over a 20-token alphabet, 10 special byte strings; signature = outcome class",
+         ({} single edits), all token strings up to length {maxlen} over a 20-token alphabet, every byte string of length <= 2, 10 special byte strings; signature = outcome class",
         n1
     );
     rep.set("axes", json!({"round_trip_records": rn, "variants": vs.len(), "single_edits": n1, "token_alphabet": 20, "token_max_len": maxlen}));
